@@ -1007,5 +1007,25 @@ def _parse(ts):
 
 ENABLED = True
 LEVEL = "proof"
-LEVEL_TEXT = "filled in below"
-LEVEL_NOTE = "filled in below"
+PARTIAL = ["C09_partial", "C09_full_statement_refuted", "C09_newtype_variant_struct_payload_refuted", "C09_enum_in_seq_signature_refuted",
+           "C09_newtype_variant_depth_leak_refuted", "C09_ipaddr_depth_leak_refuted", "C09_unit_in_container_refuted",
+           "C09_phantom_data_refuted"]
+LEVEL_TEXT = ("Theorems in coq/theories/Properties/C09.v, over ALL type definitions of a description datatype (primitives incl. i8/f32/"
+              "usize/char, String, sequences, maps, Option under option-as-array, tuples / tuple structs / arrays, newtypes, named and empty "
+              "structs, unit-only enums with and without #[repr] + serde_repr, string enums, data-carrying enums with newtype / tuple / struct "
+              "variants, dict-structs with rename_all and optional fields, IpAddr; Duration, SystemTime, Ipv4/6Addr, SocketAddrV4/6, Range* as "
+              "compositions) and all their values, any byte order and offset: the signature computed by the model of zvariant_derive / the "
+              "library impls is the D-Bus type of the Rust type and a single complete type (C09_signature); the denoted D-Bus value is "
+              "well-formed and of that signature (C09_value); what serde feeds the serializer model produces exactly the specification's "
+              "marshalling of that value, in to_bytes, serialized_size and in the middle of a message (C09_conforms, C09_size, C09_step). "
+              "PARTIAL: the statement for every compilable definition is refuted by the faithful model; five decidable classes of definitions "
+              "are excluded (C09_known_excluded) with a machine-checked witness each, all confirmed on the real code. The decode half is "
+              "observed, not proved here: the real bytes are read back by zvariant's dynamic decoder under SIGNATURE and compared with the "
+              "denoted value, and the typed Deserialize round trip is checked on every case. The model is tied to the code by compiling "
+              "Rust types generated from the same descriptions against /repo (differential correspondence + specification oracle).")
+LEVEL_NOTE = ("Partial: proved for the fragment shape_ok (all listed shapes except the five known-defect classes; Option / newtype-wrapped "
+              "data enums are covered at field, option and map-value positions). Trusted: Coq kernel; DBus/Ser.v (serializer model, C01) and its "
+              "correspondence; serde derive / std Serialize impls / serde_repr modelled by their documented data-model calls; the Python "
+              "emitter that turns a description into Rust source; HashMap order, fds, GVariant, #[derive(Value)], "
+              "time/chrono/uuid/url feature impls are out of scope. The typed deserializers (serde Deserialize derive + zvariant dbus de) are "
+              "exercised, not modelled; the dynamic reading of the bytes relies on DBus/De.v (C02/C03). Known findings: 5 classes.")
